@@ -58,6 +58,11 @@ def asm_leg(ctx, d_pin, cfgs, mutants):
     for cfg, timeout in cfgs:
         live = "Live" in cfg
         r = ctx.tlc(d, "MCSpinAsm", cfg, timeout=timeout, name="asm:" + cfg)
+        import re
+        mt = re.search(r"Temporal propert(?:y (\S+) was|ies were) violated", r.out)
+        if mt and r.violated in ("eval-error", "temporal"):      # this TLC names the property; vlib only knows the older wording
+            r.violated = "temporal:" + (mt.group(1) or "")
+            ctx.cov["legs"]["asm:" + cfg]["violated"] = r.violated
         if r.violated is None and r.ok:
             ctx.cov["states"] += r.distinct
             ctx.cov["transitions"] += r.generated
@@ -75,7 +80,8 @@ def asm_leg(ctx, d_pin, cfgs, mutants):
         if rp.violated or not rp.ok:
             raise vlib.Broken("SpinAsm/%s fails on the pinned instruction table (%s)" % (cfg, rp.violated))
         what = {"leg": "M (instruction table extracted from the current spinlock_amd64.s / spinlock.go)", "cfg": cfg,
-                "violated": r.violated if not live else "EventuallyAcquired (a blocking Acquire never returns)",
+                "violated": r.violated if not r.violated.startswith("temporal") else
+                "EventuallyAcquired: under fair scheduling a blocking Acquire never returns although the lock is released",
                 "listing": ext["listing"], "entry": ext["entry"], "counterexample_tail": compact_cex(r.trace)}
         ctx.violation(what, {"kind": "extract", "cfg": cfg, "timeout": timeout})
         break
